@@ -278,22 +278,23 @@ func (o *c09Obs) check(final bool) {
 	}
 	// monitor 3: bijection of the two maps
 	nTimeouts := 0
-	for _, to := range rd.decoysTimeouts {
-		if to.decoy != o.phantom.String() {
+	for key, to := range rd.decoysTimeouts {
+		toDecoy, toID := vTimeoutOf(to, key)
+		if toDecoy != o.phantom.String() {
 			continue
 		}
 		nTimeouts++
-		if _, ok := rd.decoys[to.decoy][to.identifier]; !ok {
+		if _, ok := rd.decoys[toDecoy][toID]; !ok {
 			rd.m.RUnlock()
-			o.viol("maps-disagree:timeout-record-without-registration", "a timeout record exists for a registration that is not tracked", map[string]interface{}{"identifier": kit.HexN([]byte(to.identifier), 6)})
+			o.viol("maps-disagree:timeout-record-without-registration", "a timeout record exists for a registration that is not tracked", map[string]interface{}{"identifier": kit.HexN([]byte(toID), 6)})
 			rd.m.RLock()
 		}
 	}
 	nRegs := len(rd.decoys[o.phantom.String()])
 	usedNow := map[string]bool{}
-	for _, to := range rd.decoysTimeouts {
-		if to.decoy == o.phantom.String() && to.status == regStatusUsed {
-			usedNow[kit.Hex([]byte(to.identifier))] = true
+	for key, to := range rd.decoysTimeouts {
+		if toDecoy, toID := vTimeoutOf(to, key); toDecoy == o.phantom.String() && to.status == regStatusUsed {
+			usedNow[kit.Hex([]byte(toID))] = true
 		}
 	}
 	rd.m.RUnlock()
